@@ -441,6 +441,51 @@ def _drop_comments(lines):
 _drop_comments._pyeval_model = True
 
 
+def binary_cases(run, p, fc, rid='C15-ARTEFACTS'):
+    """check_binary_file evaluated on an in-memory file system: byte strings that differ anywhere - in the first byte, beyond a 64 KiB
+    block, only in length (one a prefix of the other, also when the shorter one ends exactly on a block boundary or is empty) - fail,
+    with the offset of the first difference and both lengths in the message; identical ones pass; nothing is written"""
+    import re as _re
+    n = 0
+    bins = [('identical', b'abc\x00def', b'abc\x00def'), ('one-byte', b'abc\x00def', b'abc\x01def'), ('longer', b'abcdef', b'abcdefgh'),
+            ('shorter', b'abcdef', b'abc'), ('first-byte', b'xbcdef', b'abcdef'), ('empty-actual', b'', b'abc'), ('crlf', b'a\r\nb', b'a\nb')]
+    if True:
+        big = bytes(range(256)) * 300          # 76800 bytes: past any 64 KiB block
+        blk = (bytes(range(256)) * 256)          # exactly 65536 bytes
+        bins += [('prefix-ending-on-a-64KiB-boundary', blk, blk + b'y'), ('longer-than-a-64KiB-prefix', blk + b'tail', blk),
+                 ('two-blocks-vs-one', blk + blk, blk), ('empty-reference', b'abc', b''), ('both-empty', b'', b'')]
+        bins += [('beyond-64KiB', big[:70001] + b'X' + big[70002:], big), ('beyond-64KiB-and-longer', big[:66000] + b'\x00\x00tail', big[:66000] + b'\x01')]
+    for name, actual, refb in bins:
+        failures, msg, fs = _run_cmp(p, fc, 'check_binary_file', ['/w/o.bin', '/ref/o.bin'], {}, {'/w/o.bin': actual, '/ref/o.bin': refb})
+        n += 1
+        probs = []
+        if failures is None:
+            probs.append(msg)
+        elif actual == refb:
+            if failures or fs.written:
+                probs.append('failures=%s, written=%s for identical bytes' % (failures, sorted(fs.written)))
+        else:
+            if not failures:
+                probs.append('passes although the bytes differ')
+            if fs.written:
+                probs.append('writes %s' % sorted(fs.written))
+            off = next((i for i, (x, y) in enumerate(zip(actual, refb)) if x != y), min(len(actual), len(refb)))
+            m_ = _re.search(r'byte offset (\d+)', msg)
+            if not m_ or int(m_.group(1)) != off:
+                probs.append('reports offset %s, the first difference is at %d' % (m_.group(1) if m_ else None, off))
+            nums = [int(x) for x in _re.findall(r'length (\d+)', msg)]
+            if len(actual) == len(refb):
+                if nums != [len(actual)]:
+                    probs.append('reports lengths %s, both are %d' % (nums, len(actual)))
+            elif nums != [len(actual), len(refb)]:
+                probs.append('reports lengths %s, they are %d and %d' % (nums, len(actual), len(refb)))
+            if '/w/o.bin' not in msg or '/ref/o.bin' not in msg:
+                probs.append('the message does not name both files')
+        run.ob(rid, 'check_binary_file:%s' % name, not probs, 'check_binary_file, %s: %s' % (name, '; '.join(probs[:2]) or 'as stated'),
+               fn=fc.methods['check_binary_file'])
+    return n
+
+
 def artefacts(run, p, fc):
     import re as _re
     run.rule('C15-ARTEFACTS', 'the string / text-file / binary-file comparisons, evaluated on an in-memory file system: a passing '
@@ -547,38 +592,5 @@ def artefacts(run, p, fc):
             run.ob('C15-ARTEFACTS', '%s:%s' % (entry, name), not probs,
                    '%s, %s: %s' % (entry, name, '; '.join(probs[:2]) or ('nothing written' if passes else 'artefacts %s' % sorted(fs.written))),
                    fn=fc.methods[entry])
-    # binary
-    bins = [('identical', b'abc\x00def', b'abc\x00def'), ('one-byte', b'abc\x00def', b'abc\x01def'), ('longer', b'abcdef', b'abcdefgh'),
-            ('shorter', b'abcdef', b'abc'), ('first-byte', b'xbcdef', b'abcdef'), ('empty-actual', b'', b'abc'), ('crlf', b'a\r\nb', b'a\nb')]
-    if True:
-        big = bytes(range(256)) * 300          # 76800 bytes: past any 64 KiB block
-        bins += [('beyond-64KiB', big[:70001] + b'X' + big[70002:], big), ('beyond-64KiB-and-longer', big[:66000] + b'\x00\x00tail', big[:66000] + b'\x01')]
-    for name, actual, refb in bins:
-        failures, msg, fs = _run_cmp(p, fc, 'check_binary_file', ['/w/o.bin', '/ref/o.bin'], {}, {'/w/o.bin': actual, '/ref/o.bin': refb})
-        n += 1
-        probs = []
-        if failures is None:
-            probs.append(msg)
-        elif actual == refb:
-            if failures or fs.written:
-                probs.append('failures=%s, written=%s for identical bytes' % (failures, sorted(fs.written)))
-        else:
-            if not failures:
-                probs.append('passes although the bytes differ')
-            if fs.written:
-                probs.append('writes %s' % sorted(fs.written))
-            off = next((i for i, (x, y) in enumerate(zip(actual, refb)) if x != y), min(len(actual), len(refb)))
-            m_ = _re.search(r'byte offset (\d+)', msg)
-            if not m_ or int(m_.group(1)) != off:
-                probs.append('reports offset %s, the first difference is at %d' % (m_.group(1) if m_ else None, off))
-            nums = [int(x) for x in _re.findall(r'length (\d+)', msg)]
-            if len(actual) == len(refb):
-                if nums != [len(actual)]:
-                    probs.append('reports lengths %s, both are %d' % (nums, len(actual)))
-            elif nums != [len(actual), len(refb)]:
-                probs.append('reports lengths %s, they are %d and %d' % (nums, len(actual), len(refb)))
-            if '/w/o.bin' not in msg or '/ref/o.bin' not in msg:
-                probs.append('the message does not name both files')
-        run.ob('C15-ARTEFACTS', 'check_binary_file:%s' % name, not probs, 'check_binary_file, %s: %s' % (name, '; '.join(probs[:2]) or 'as stated'),
-               fn=fc.methods['check_binary_file'])
+    n += binary_cases(run, p, fc)
     run.floor('C15-ARTEFACTS', n, 41)
